@@ -276,7 +276,7 @@ def _divisor_lo_gt_hi(rng):
 
 def first_in_range(A, Mod, L, R):
     """Smallest x >= 0 with L <= A * x mod Mod <= R (0 <= L <= R < Mod), or -1. Euclid-like, O(log Mod)
-    (validated against brute force in oracle selftest)."""
+    (validated against brute force in vf.hard.selftest)."""
     if L == 0:
         return 0
     A %= Mod
